@@ -179,13 +179,15 @@ impl Compound {
             *value *= Rational::new(10u32, 1u32).pow(state.prefix * state.power);
 
             if let Some(conversion) = name.conversion() {
-                apply_conversion(state.power, value, conversion)?;
+                let alone = other.names.len() == 1 && state.power == 1;
+                apply_conversion(state.power, value, conversion, alone)?;
             }
         }
 
         for (name, state) in &self.names {
             if let Some(conversion) = name.conversion() {
-                apply_conversion(-state.power, value, conversion)?;
+                let alone = self.names.len() == 1 && state.power == 1;
+                apply_conversion(-state.power, value, conversion, alone)?;
             }
 
             *value /= Rational::new(10u32, 1u32).pow(state.prefix * state.power);
@@ -247,7 +249,7 @@ impl Compound {
             *lhs *= Rational::new(10u32, 1u32).pow(state.prefix * state.power);
 
             if let Some(conversion) = name.conversion() {
-                apply_conversion(state.power, lhs, conversion)?;
+                apply_conversion(state.power, lhs, conversion, true)?;
             }
         }
 
@@ -255,7 +257,7 @@ impl Compound {
             *rhs *= Rational::new(10u32, 1u32).pow(state.prefix * state.power);
 
             if let Some(conversion) = name.conversion() {
-                apply_conversion(state.power, rhs, conversion)?;
+                apply_conversion(state.power, rhs, conversion, true)?;
             }
         }
 
@@ -317,7 +319,7 @@ impl Compound {
                     // original factor modifier, which we apply to mod_power to
                     // get the original power back. Then we multiply by `-1`
                     // because we want to shed the multiples here.
-                    apply_conversion(-mod_power, out, conversion)?;
+                    apply_conversion(-mod_power, out, conversion, true)?;
                 }
             }
 
@@ -519,14 +521,18 @@ impl fmt::Display for Compound {
     }
 }
 
+/// Apply the conversion of a unit raised to `pow`. `alone` is whether the unit
+/// is the only one in its compound and has the power one, a scale with a zero
+/// point offset can only be converted when that is the case.
 fn apply_conversion(
     pow: i32,
     ratio: &mut Rational,
     conversion: Conversion,
+    alone: bool,
 ) -> Result<(), CompoundError> {
     match conversion {
         Conversion::Methods(methods) => {
-            if pow.abs() != 1 {
+            if pow.abs() != 1 || !alone {
                 return Err(CompoundError);
             }
 
@@ -544,7 +550,7 @@ fn apply_conversion(
             }
         }
         Conversion::Offset(fraction) => {
-            if pow.abs() != 1 {
+            if pow.abs() != 1 || !alone {
                 return Err(CompoundError);
             }
 
